@@ -398,3 +398,12 @@ add_multi("alt-step-work-vector-allocated-once", F, ["C12"], [
 add("s-alt-step-inner-allocation-dropped", S, ["C12"], "dfols/trust_region.py", "            temp = sqrt(temp)\n            s = np.zeros((n,))\n", "            temp = sqrt(temp)\n")
 add("s-alt-step-buffer-zeroed-in-place", S, ["C12"], "dfols/trust_region.py", "        s = np.zeros((n,))\n        s[xbdi == 0] = d[xbdi == 0]\n", "        s = np.empty((n,))\n        s[:] = 0.0\n        s[xbdi == 0] = d[xbdi == 0]\n")
 add("s-alt-step-complementary-mask-zeroed", S, ["C12"], "dfols/trust_region.py", "        s = np.zeros((n,))\n        s[xbdi == 0] = d[xbdi == 0]\n", "        s = np.empty((n,))\n        s[xbdi != 0] = 0.0\n        s[xbdi == 0] = d[xbdi == 0]\n")
+
+# ---- C12-5: gnew = g + H d as an algebraic consequence of the statements (linear-relation analysis)
+add("cg-gradient-update-uses-other-step-length", F, ["C12"], "dfols/trust_region.py", "            gnew += stplen * hs\n", "            gnew += blen * hs\n", "C12-5")
+add("alt-step-hred-not-updated-with-cosine", F, ["C12"], "dfols/trust_region.py", "            hred = cth * hred + sth * hs\n", "            hred = hred + sth * hs\n", "C12-5")
+add("alt-step-gradient-update-sign", F, ["C12"], "dfols/trust_region.py", "            gnew += (cth - 1.0) * hred + sth * hs\n", "            gnew += (cth - 1.0) * hred - sth * hs\n", "C12-5")
+add("alt-step-hred-from-full-gradient-difference", F, ["C12"], "dfols/trust_region.py", "        hred = hs.copy()\n", "        hred = H.dot(d)\n", "C12-5")
+add("s-alt-step-update-order-swapped", S, ["C12"], "dfols/trust_region.py", "            gnew += (cth - 1.0) * hred + sth * hs\n            d[xbdi == 0] = cth * d[xbdi == 0] + sth * s[xbdi == 0]\n",
+    "            d[xbdi == 0] = cth * d[xbdi == 0] + sth * s[xbdi == 0]\n            gnew += (cth - 1.0) * hred + sth * hs\n")
+add("s-cg-updates-written-out", S, ["C12"], "dfols/trust_region.py", "            gnew += stplen * hs\n            d += stplen * s\n", "            d = d + stplen * s\n            gnew = gnew + stplen * H.dot(s)\n")
